@@ -38,6 +38,7 @@ class Opts:
         self.recursive = True
         self.with_ = True
         self.loopvar = True
+        self.fragfilters = False   # apply escaping-neutral filters / `~` to rendered fragments
         self.max_stmts = 25
         self.max_depth = 4
         self.pool = list(POOL)
@@ -80,8 +81,25 @@ class SGen:
             return ["bin", "+", ["attr", N("ns"), self.pick(["v", "w"])], C(r.randint(1, 3))]
         return safe_int(self.pv(), r.randint(0, 5))
 
+    def frag(self, e):
+        """Pass a rendered fragment (macro result, caller(), set-block value)
+        through an escaping-neutral filter or a `~` with a plain value in front."""
+        r = self.r
+        if not self.o.fragfilters or r.random() < 0.4:
+            return e
+        k = r.random()
+        if k < 0.45:
+            return F(e, self.pick(["lower", "string", "trim", "default"]))
+        if k < 0.7:
+            return ["bin", "~", N(self.pv()), e]
+        if k < 0.85:
+            return ["bin", "~", C("&amp;<"), e]
+        return ["bin", "~", F(e, "lower"), C("<t>")]
+
     def out_expr(self, st):
         r = self.r
+        if self.o.fragfilters and r.random() < 0.2:
+            return self.frag(N(self.pv()))
         k = r.random()
         if k < 0.45:
             return N(self.pv())
@@ -259,7 +277,7 @@ class SGen:
         if self.o.callblocks and r.random() < 0.3:
             uses_caller = True
             arg = [self.int_expr(inner)] if r.random() < 0.4 else []
-            callit = ["out", ["call", N("caller"), arg, []]]
+            callit = ["out", self.frag(["call", N("caller"), arg, []])]
             if r.random() < 0.7:
                 callit = ["if", [[["test", N("caller"), "defined", [], False], [callit]]], None]
             body.insert(r.randint(0, len(body)), callit)
@@ -289,7 +307,7 @@ class SGen:
             body = self.block(self.sub(st, loop=False, flow=False), r.randint(1, 2))
             self.feat.add("callblock")
             return [["callblock", cparams, call, body]]
-        return [["out", call]]
+        return [["out", self.frag(call)]]
 
 
 def make_data(rng, pool=POOL):
